@@ -251,6 +251,31 @@ def cblog_scan(rep, pid, tier):
         for p, msg in cblog_fails(flat):
             if p == pid:
                 found.append((c, msg))
+    # reloads with one refused allocation each (every request of the exchange in turn): a copy of the other sources' records that
+    # fails half-way must not be swapped in - records would vanish without a callback.  Implementation only (the model has no allocator).
+    ra = vlib.rng(pid + "/cblog/allocfail")
+    bases = [rtrgen.gen_reload_case(ra) for _ in range({"quick": 3, "thorough": 40}[tier])]
+    while not any(b.meta["mut"] == "reload" and b.meta["others_v6"] >= 2 for b in bases):
+        bases.append(rtrgen.gen_reload_case(ra))
+    probes = [rtrgen.allocfail_variant(b, 10 ** 12) for b in bases]
+    counted = {}
+    for c, irep, crash in run_impl_cases(exe, probes):
+        a = [l for x in (irep or []) for l in x if l.startswith("A ")]
+        counted[id(c)] = int(a[0].split()[1]) if a else 0
+    variants = []
+    for b, pr in zip(bases, probes):
+        variants += [rtrgen.allocfail_variant(b, k) for k in range(1, min(counted.get(id(pr), 0), 200) + 1)]
+    n_ref = 0
+    for c, irep, crash in run_impl_cases(exe, variants):
+        if crash:
+            continue
+        flat = [l for x in irep for l in x]
+        n_ref += any(l.startswith("A ") and l.split()[2] == "1" for l in flat)
+        n_dump += sum(1 for l in flat if l.startswith("D pfx") or l.startswith("T pfx"))
+        for p, msg in cblog_fails(flat):
+            if p == pid:
+                found.append((c, msg + " (one allocation request of the exchange was refused)"))
+    rep.cov["sync_callback_log_allocfail"] = {"scenarios": len(bases), "runs": len(variants), "runs_with_a_refused_request": n_ref}
     rep.cov["sync_callback_log"] = {"conversations": len(cases), "table_dumps_compared_with_callback_replay": n_dump}
     rep.cov["evaluations"] = rep.cov.get("evaluations", 0) + n_dump
     return found
